@@ -78,6 +78,10 @@ Definition new_chan (init max : nat) : chan :=
 Definition handle_events (c : chan) (r w : bool) : chan :=
   set_rdy_w (set_rdy_r c (rdy_r c || r)) (rdy_w c || w).
 
+(** [Channel::into]: re-typing the channel (the worker does it after its blocking
+    handshake) moves every field; the message types are phantom *)
+Definition retype (c : chan) : chan := c.
+
 (** [grow_size] *)
 Definition grow_size (c : chan) (cur : nat) : option nat :=
   if maxb c <=? cur then None
